@@ -11,6 +11,7 @@ import (
 	"unicode/utf8"
 
 	"github.com/pentops/j5/gen/test/schema/v1/schema_testpb"
+	"github.com/pentops/j5/j5types/any_j5t"
 	"github.com/pentops/j5/j5types/date_j5t"
 	"google.golang.org/protobuf/reflect/protoreflect"
 
@@ -181,17 +182,19 @@ func (er *encRun) encodeCase(stream string, t *target, m protoreflect.Message, m
 	switch o.Kind {
 	case "panic":
 		res.Fail(vh.Failure{Case: caseNo, Stream: stream, Sig: "C08 encoder panic (" + cls + ")", Clause: "encoding fails or yields a JSON document", Input: in, Got: o.Panic})
+	case "err":
+		if strings.Contains(cls, "ill-formed j5_json") {
+			res.Count("refused_illformed_stored_j5json")
+		}
 	case "ok":
 		root, perr := parseStrict(o.Out)
 		valid = json.Valid(o.Out)
 		if (perr == nil) != valid {
 			res.Fail(vh.Failure{Case: caseNo, Stream: stream, Sig: "harness: strict reader and encoding/json.Valid disagree", Clause: "harness self-check", Input: in, Got: short(o.Out)})
 		}
-		if perr != nil && strings.Contains(cls, "ill-formed j5_json") {
-			// the stored JSON text of a j5 Any is embedded verbatim; a message whose j5_json is not
-			// JSON is outside the property's domain (not representable in the wire format)
-			res.Count("outside_domain_illformed_j5json")
-		} else if perr != nil {
+		if perr != nil {
+			// no exemption: a j5 Any whose stored j5_json is not a JSON document must make the encoding
+			// fail (encodeAny checks json.Valid && utf8.Valid since the /repo fix), never be copied out
 			res.Fail(vh.Failure{Case: caseNo, Stream: stream, Sig: "C08 output is not well-formed JSON (" + cls + ")", Clause: "every successful encoding is one well-formed JSON document", Input: in, Got: short(o.Out) + ": " + perr.Error()})
 		} else {
 			wc := checkWire(t.Env, m, root)
@@ -232,6 +235,16 @@ func (er *encRun) encodeCase(stream string, t *target, m protoreflect.Message, m
 	return o, facts
 }
 
+// storedTextCorpus: stored j5_json texts of a j5 Any — not JSON in every way the strict reader
+// distinguishes, and JSON in unusual spellings (these are copied verbatim).
+func storedTextCorpus() []string {
+	return []string{
+		"{not json", "1 2", "{\"a\":1}}", "{\"a\":1", "[1,]", "{\"a\":1,}", "{,}", "nul", "tru", "+1", "01", "1.", ".5", "1e", "-",
+		"\"abc", "\"a\nb\"", "\"\\x\"", "\"\\u12\"", "\"\xff\"", "\"\xed\xa0\x80\"", "{\"a\" 1}", "{1:2}", "[1 2]", " ", "}", "]", "{\"a\":}", "\x00",
+		"{}", "[]", "null", "true", "0", "-0", "1e5", "1E+5", "\"\"", " { \"a\" : [ 1 , 2 ] } ", "\"\\u0041\\/\"", "{\"a\":1,\"a\":2}", "\"\\ud83d\\ude00\"", "\t[\r\n]\n",
+	}
+}
+
 func handMessages() []*schema_testpb.FullSchema {
 	f32 := func(f float64) float32 { return float32(f) }
 	s := func(x string) *string { return &x }
@@ -269,8 +282,51 @@ func runC08(cfg *vh.Config) error {
 	r := cfg.R
 	full := targets[0]
 
+	// the reflector's derivation steps (enum short names, flatten hoisting), recomputed in Coq from the
+	// raw environment of every root type of the run
+	for _, t := range targets {
+		raw, err := codecgen.BuildRawEnv(t.New().Descriptor())
+		if err != nil {
+			res.Count("raw_env_error")
+			res.Notes = append(res.Notes, "raw environment of "+t.Env.Root+": "+err.Error())
+			continue
+		}
+		nFlat, nEnum := 0, 0
+		for _, s := range raw.Schemas {
+			for _, p := range s.Props {
+				if p.Flatten {
+					nFlat++
+				}
+				// "member names are the schema's JSON names": the reflector's name of an own property is
+				// the proto descriptor's JSON name of its field
+				if p.Field != nil && len(p.Path) == 1 {
+					res.Distribution["derivation_json_names_checked"]++
+					if string(p.Field.JSONName()) != p.JSON {
+						res.Fail(vh.Failure{Case: em.caseNo, Stream: "reflector-derivation", Sig: "C08 member name is not the descriptor's JSON name", Clause: "member names are the schema's JSON names",
+							Input: map[string]any{"type": s.Name, "field": string(p.Field.FullName())}, Got: p.JSON + " vs " + string(p.Field.JSONName())})
+					}
+				}
+			}
+			if s.Class == "enum" {
+				nEnum++
+			}
+		}
+		res.Distribution["derivation_flattened_properties"] += nFlat
+		res.Distribution["derivation_enums"] += nEnum
+		res.Count("reflector-derivation")
+		em.add(fmt.Sprintf("CEnv %s %s", raw.RawCoq(), t.Name), "reflector-derivation", map[string]any{"type": t.Env.Root}, map[string]any{"schemas": len(t.Env.Schemas), "raw_schemas": len(raw.Schemas)})
+		em.caseNo++
+	}
+
 	for _, m := range handMessages() {
 		er.encodeCase("hand-written", full, m.ProtoReflect(), true)
+	}
+	// pinned: j5 Any values whose stored j5_json is not one JSON value in valid UTF-8 (every way the
+	// strict reader refuses a text), beside texts it accepts in unusual spellings
+	for _, stored := range storedTextCorpus() {
+		a := &any_j5t.Any{TypeName: "test.schema.v1.Bar", J5Json: []byte(stored)}
+		er.encodeCase("any-stored-text", full, (&schema_testpb.FullSchema{J5Any: a}).ProtoReflect(), true)
+		er.encodeCase("any-stored-text", full, (&schema_testpb.FullSchema{SBar: &schema_testpb.Bar{BarId: "b"}, J5Any: a, SString: "after"}).ProtoReflect(), true)
 	}
 
 	pick := func() *target {
